@@ -146,7 +146,8 @@ def rank2_system(dom, omega_obj):
     s.diameter[['A', 'B']] = 1.0
     s.closure[['A', 'B'], ['A', 'B']] = pyPRISM.closure.PercusYevick()
     s.potential[['A', 'B'], ['A', 'B']] = pyPRISM.potential.HardSphere()
-    s.omega['A', 'A'] = pyPRISM.omega.SingleSite()
+    # a second, different tabulated entry in the same System (A-A), the entry under test in B-B
+    s.omega['A', 'A'] = pyPRISM.omega.FromArray(1.0 + 2.0 / (1.0 + np.asarray(dom.k) ** 2))
     s.omega['A', 'B'] = pyPRISM.omega.NoIntra()
     s.omega['B', 'B'] = omega_obj
     return s
@@ -224,6 +225,8 @@ def case_one(rec, c):
                 continue
             if not np.array_equal(P.omega[key], vals0 * rho):
                 rec.fail(c, 'PRISM.omega[%s,%s] is not the supplied data times the site density' % key, tags(src, 'not-verbatim'))
+            if key == ('B', 'B') and not np.array_equal(P.omega['A', 'A'], (1.0 + 2.0 / (1.0 + np.asarray(dom.k) ** 2)) * 0.2):
+                rec.fail(c, 'PRISM.omega[A,A] (a second tabulated entry of the same System) is not its own data times the site density', tags(src, 'not-verbatim'))
             # the System keeps the table verbatim: a second and third PRISM object built from it see the same data
             try:
                 P2 = S_.createPRISM()
@@ -240,11 +243,10 @@ def case_one(rec, c):
                 rec.fail(c, 'after createPRISM the table stored in the System no longer returns the supplied data', tags(src, 'not-verbatim'))
         verdict = 'verbatim'
     else:
-        if raised is not None:
-            verdict = 'rejected at calculate'
-        else:
-            # the only tolerated route: a one-column file of the wrong length, rejected when the PRISM object is built
-            # or first evaluated.  Whatever the source: no cost evaluation may succeed.
+        if True:
+            # Whatever the source and whether or not a direct calculate() raised: stored in a System (which copies
+            # the table), no PRISM object whose cost can be evaluated may come out of mismatching data.
+            # (A one-column file of the wrong length may pass calculate() and be rejected here.)
             produced = []
             for mk in (rank1_system, rank2_system):
                 obj2, _ = make_source(src, vals0, kcol0, tag + mk.__name__)
@@ -264,10 +266,28 @@ def case_one(rec, c):
                 rec.fail(c, '%s with %s data (%d points for a domain of %d, k perturbation %r) was accepted and a cost evaluation succeeded (%s)'
                          % (src, rel, M, L, pert, ', '.join(produced)), tags(src, 'accepted-mismatch'))
                 return
-            if src != 'file1':
+            if raised is None and src != 'file1':
                 rec.fail(c, '%s with mismatching data (%s, %r) did not raise when evaluated' % (src, rel, pert), tags(src, 'accepted-mismatch'))
                 return
-            verdict = 'rejected at createPRISM/cost'
+            verdict = 'rejected at calculate' if raised is not None else 'rejected at createPRISM/cost'
+            # the same object after a successful evaluation on ITS OWN matching grid: a mismatching grid is still refused
+            if src in ('array_k', 'file2') and pert[0] in ('none',) and rel in ('double', 'half', 'plus1', 'minus1'):
+                own = build.make_domain({'length': M, 'dk': float(dom.dk)})
+                obj3, _ = make_source(src, vals0, kcol0, tag + 'own')
+                if build.domain_ok(own) and len(kcol0) == M and np.allclose(own.k, kcol0):
+                    try:
+                        first = np.asarray(obj3.calculate(own.k))
+                        rec.trans()
+                    except Exception as e:
+                        rec.fail(c, '%s: evaluation on its own matching grid (length %d) raised %s' % (src, M, type(e).__name__), tags(src, 'rejected-valid'))
+                        return
+                    try:
+                        obj3.calculate(k)
+                        rec.fail(c, '%s: after one evaluation on its matching grid (length %d) the same object accepted a grid of length %d' % (src, M, L),
+                                 tags(src, 'accepted-mismatch'))
+                        return
+                    except Exception:
+                        pass
     rec.trace()
     rec.outcome(core.digest([c['domain'], src, rel, pert, verdict]))
 
